@@ -64,6 +64,47 @@ Theorem C06_command_loop : forall waits (last : reply) expected wait k fuel,
 Proof. exact command_loop. Qed.
 Print Assumptions C06_command_loop.
 
+(* whole reply sequences on one stream, well-formed replies of all three forms interleaved in any
+   order with multi-line replies whose closing line carries another code: successive
+   parse_response calls return, item by item, the decoded reply resp. the rejection, whatever
+   precedes and follows, and the stream is exhausted exactly after the last item
+   (so no mis-framed or rejected reply desynchronises a later one) *)
+Theorem C06_decode_sequence : forall (items : list item) (fuel : nat),
+  Forall item_ok items -> (length items < fuel)%nat ->
+  exists results,
+    parse_seq fuel (split_lines (flat_map item_wire items)) = results ++ [PReset]
+    /\ Forall2 item_result items results.
+Proof. exact decode_sequence. Qed.
+Print Assumptions C06_decode_sequence.
+
+(* two successive command() calls on one stream, ANY expected / wait masks (overlapping or not):
+   the second call starts exactly after the reply the first one stopped at - also when the first
+   one raised StatusCodeError - so a reply matching both a wait and an expected mask is passed
+   over, never returned *)
+Theorem C06_command_then_command :
+  forall waits1 last1 e1 w1 waits2 last2 e2 w2 k fuel,
+  Forall reply_ok waits1 -> reply_ok last1 ->
+  Forall (fun r => any_matches w1 (fst (fst r)) = true) waits1 ->
+  any_matches w1 (fst (fst last1)) = false ->
+  Forall reply_ok waits2 -> reply_ok last2 ->
+  Forall (fun r => any_matches w2 (fst (fst r)) = true) waits2 ->
+  any_matches w2 (fst (fst last2)) = false ->
+  (length waits1 < fuel)%nat -> (length waits2 < fuel)%nat ->
+  command_seq fuel [(e1, w1); (e2, w2)]
+    (split_lines (replies_wire waits1 ++ reply_wire last1
+                  ++ replies_wire waits2 ++ reply_wire last2 ++ k))
+  = [command_outcome e1 last1 []; command_outcome e2 last2 (split_lines k)].
+Proof. exact command_then_command. Qed.
+Print Assumptions C06_command_then_command.
+
+(* non-vacuity of the overlapping case: wait mask "226" and expected mask "2xx" both match 226;
+   the 226 is skipped, 250 returned, and the next command reads the 200 *)
+Example C06_overlap_example :
+  command_seq 9 [([[50;120;120]], [[50;50;54]]); ([[120;120;120]], [])]
+    (split_lines [50;50;54;32;97;13;10; 50;53;48;32;98;13;10; 50;48;48;32;99;13;10])
+  = [COk [50;53;48] [[32;98]] []; COk [50;48;48] [[32;99]] []].
+Proof. vm_compute. reflexivity. Qed.
+
 (* command line: "VERB arg\r\n" built by the client is parsed by the server to (verb, arg) *)
 Theorem C06_parse_command_build : forall verb arg,
   verb <> [] ->
